@@ -108,6 +108,24 @@ def run(ctx):
         n_after += 1
         n_resent += 1
     hist["packed-after-a-failed-pack"] = n_after
+    # octet-string fields handed over as bytearray objects (one object per distinct content, so equal fields SHARE it), the message packed twice:
+    # both encodings are strict RFC 4511 BER of the message (the caller's buffers are not part of the writer's scratch space)
+    n_ba = 0
+    for j in msgs[len(p_c01.corpus_messages()):][: ctx.scale(700, 10000)]:
+        try:
+            with C.octet_kind("shared"):
+                m_ = C.msg_from_json(j)
+            first = bytes(m_.pack(M.PackingOptions()))
+            second = bytes(m_.pack(M.PackingOptions()))
+        except BaseException:  # noqa: BLE001
+            continue
+        for data in (first, second):
+            msgs.append(j)
+            encs.append(data)
+            reqs.append({"op": "rfcdec", "hex": data.hex()})
+            n_resent += 1
+        n_ba += 1
+    hist["bytearray-fields-packed-twice"] = n_ba
     violations = []
     disagreements = []
     samples = []
